@@ -24,7 +24,7 @@ INSTS = {
                  ("P255", "char", 255, "xtl::buffer | xtl::store_size", "silent_error"), ("F256", "char", 256, "xtl::buffer | xtl::store_size", "silent_error"),
                  ("P1", "char", 1, "xtl::buffer | xtl::store_size", "silent_error"), ("T16", "char", 16, "xtl::buffer | xtl::store_size", "throwing_error"),
                  ("W16", "wchar_t", 16, "xtl::buffer | xtl::store_size", "silent_error"), ("U300", "char16_t", 300, "xtl::buffer | xtl::store_size", "silent_error"),
-                 ("F300", "char", 300, "xtl::buffer | xtl::store_size", "silent_error"), ("WE16", "wchar_t", 16, "xtl::buffer", "silent_error")],
+                 ("F300", "char", 300, "xtl::buffer | xtl::store_size", "silent_error")],
 }
 
 
